@@ -466,3 +466,37 @@ def spec_wordlist(ctx, which, lib_words):
         ctx.violation("wordlist:%s-list-differs" % which, "the %s word list loaded by the library differs from the standard list at index %d: %r (standard: %r)"
                       % (which, k, lib[k] if k < len(lib) else None, words[k] if k < n else None), {"kind": "wordlist", "which": which, "index": k})
     return words
+
+
+# ---- process pools whose workers run library code: an exception that escapes from the library inside a worker is the library
+# failing on an in-domain input (a violation with a stable key), not a failure of the machinery
+def _guarded_job(t):
+    import importlib
+    import traceback
+    modname, fname, job = t
+    try:
+        return getattr(importlib.import_module(modname), fname)(job)
+    except MachineryError:
+        raise
+    except Exception as e:
+        frames = traceback.extract_tb(e.__traceback__)
+        lib = os.path.realpath(os.path.join(REPO, "buidl")) + os.sep
+        last = frames[-1] if frames else None
+        in_lib = last is not None and os.path.realpath(last.filename).startswith(lib) and os.sep + "test" + os.sep not in last.filename
+        where = "%s.%s" % (os.path.splitext(os.path.basename(last.filename))[0], last.name) if last is not None else "?"
+        return {"__raised__": True, "in_library": in_lib, "type": type(e).__name__, "msg": str(e)[:200], "where": where,
+                "traceback": traceback.format_exc()[-3000:]}
+
+
+def pool_map(ctx, fn, jobs, workers=None):
+    from concurrent.futures import ProcessPoolExecutor
+    with ProcessPoolExecutor(max_workers=workers or NCPU) as ex:
+        for res in ex.map(_guarded_job, [(fn.__module__, fn.__name__, j) for j in jobs]):
+            if isinstance(res, dict) and res.get("__raised__"):
+                if res["in_library"]:
+                    ctx.violation("library-raises:%s:%s" % (res["type"], res["where"]),
+                                  "the library raised %s(%s) in %s on an input of the property's domain (worker of %s)" % (res["type"], res["msg"], res["where"], fn.__name__),
+                                  {"kind": "library-exception", "traceback": res["traceback"]})
+                    continue
+                raise MachineryError("worker %s failed outside the library: %s" % (fn.__name__, res["traceback"][-800:]))
+            yield res
